@@ -304,4 +304,58 @@ def pshard (ps : List Part) (starts : Nat → Nat) (size period now : Int) : Lis
   let st := ploop (decide (period > 0)) til (partTokens ps) starts (ps.length + 1) 0 ⟨[], [], size⟩
   (ps.filter fun p => st.result.contains p.id).map (·.id)
 
+
+/-! ## partition ring with the two look-ups that can fail (`ErrInconsistentTokensInfo`)
+
+`PartitionRing.shuffleShard` reads `r.ringTokens[p]`, then `r.partitionByToken[token]` and (after the
+result / exclude checks) `r.desc.Partitions[pid]`; either look-up failing returns
+`ErrInconsistentTokensInfo`. `pshard` above carries the partition with each token, which hides both
+branches; here the three indexes are separate. `PfC12.pshard_total`: with distinct partition ids and
+globally unique tokens the checked model returns `.ok` of `pshard`. -/
+
+/-- `r.ringTokens` -/
+def ptokenList (ps : List Part) : List Nat := (ps.flatMap (·.tokens)).mergeSort fun a b => decide (a ≤ b)
+/-- `r.partitionByToken[token]` -/
+def partitionByToken (ps : List Part) (t : Nat) : Option Int := (ps.find? fun p => p.tokens.contains t).map (·.id)
+/-- `r.desc.Partitions[pid]` -/
+def partById (ps : List Part) (id : Int) : Option Part := ps.find? fun p => p.id == id
+
+def pwalkC (lbOn : Bool) (til : Int) (byTok : Nat → Option Int) (byId : Int → Option Part) :
+    List Nat → PSt → Except Err (PSt × Bool)
+  | [], st => .ok (st, false)
+  | t :: rest, st =>
+    match byTok t with
+    | none => .error .inconsistentTokensInfo
+    | some pid =>
+      if st.result.contains pid then pwalkC lbOn til byTok byId rest st
+      else if st.exclude.contains pid then pwalkC lbOn til byTok byId rest st
+      else match byId pid with
+        | none => .error .inconsistentTokensInfo
+        | some p =>
+          if p.state == .pending then pwalkC lbOn til byTok byId rest { st with exclude := pid :: st.exclude }
+          else
+            let within := lbOn && decide (p.stateTs ≥ til)
+            let incl := p.state == .active || within
+            let st1 : PSt := if incl then { st with result := pid :: st.result } else { st with exclude := pid :: st.exclude }
+            let st2 : PSt := if within then { st1 with size := st1.size + 1 } else st1
+            if incl && !within then .ok (st2, true) else pwalkC lbOn til byTok byId rest st2
+
+def ploopC (lbOn : Bool) (til : Int) (byTok : Nat → Option Int) (byId : Int → Option Part) (toks : List Nat)
+    (starts : Nat → Nat) : Nat → Nat → PSt → Except Err PSt
+  | 0, _, st => .ok st
+  | fuel + 1, i, st =>
+    if st.result.length < st.size then
+      match pwalkC lbOn til byTok byId (rotate toks (searchTokenN toks (starts i))) st with
+      | .error e => .error e
+      | .ok r => if r.2 then ploopC lbOn til byTok byId toks starts fuel (i + 1) r.1 else .ok r.1
+    else .ok st
+
+/-- `PartitionRing.ShuffleShard` / `ShuffleShardWithLookback` with the error returns modelled. -/
+def pshardC (ps : List Part) (starts : Nat → Nat) (size period now : Int) : Except Err (List Int) :=
+  let size : Nat := if size ≤ 0 || size ≥ ps.length then ps.length else size.toNat
+  let til : Int := if period > 0 then now - period else 0
+  match ploopC (decide (period > 0)) til (partitionByToken ps) (partById ps) (ptokenList ps) starts (ps.length + 1) 0 ⟨[], [], size⟩ with
+  | .error e => .error e
+  | .ok st => .ok ((ps.filter fun p => st.result.contains p.id).map (·.id))
+
 end C12
